@@ -16,6 +16,22 @@ static inline vit_pi32_vvec_i32* vit_pi32_vvec_i32_op_inc(vit_pi32_vvec_i32* it)
 static vvec_i32* g_vec;
 static inline int* vit_pi32_vvec_i32_op_star___k(const vit_pi32_vvec_i32* it) { __CPROVER_assert(it->idx < g_vec->size, "MODEL: only a valid (non-end) iterator is dereferenced"); g_deref_idx = it->idx; return &g_dummy; }
 static inline int* vvec_i32_emplace_back(vvec_i32* v) { g_deref_idx = v->size; v->size++; return &g_dummy; }
+/* std::optional<int> / std::unique_ptr<int> models */
+typedef struct { char __e; } std_nullopt_t; static const std_nullopt_t m_std_nullopt = {0};
+typedef struct { _Bool has; int v; } vopt_i32;
+static inline _Bool vopt_i32_has_value___k(const vopt_i32* o) { return o->has; }
+static inline vopt_i32 vopt_i32_ctor_i32_1__xi32(int* v) { vopt_i32 o; o.has = 1; o.v = *v; return o; }
+static inline vopt_i32* vopt_i32_op_assign__xvopt_i32(vopt_i32* o, vopt_i32* s) { *o = *s; return o; }
+static inline vopt_i32* vopt_i32_op_assign__std_nullopt_t(vopt_i32* o, std_nullopt_t n) { (void)n; o->has = 0; return o; }
+static inline int* vopt_i32_value(vopt_i32* o) { if (!o->has) __verif_exc = 10 /* std::bad_optional_access */; return &o->v; }
+typedef struct { int* p; unsigned allocs, frees; } std_unique_ptr_i32_std_default_delete_i32;
+#define UP std_unique_ptr_i32_std_default_delete_i32
+static int g_heap_cell; static unsigned g_allocs, g_frees;
+static inline _Bool std_unique_ptr_i32_std_default_delete_i32_conv_b___k(const UP* u) { return u->p != 0; }
+static inline UP m_std_make_unique_i32(void) { UP u; g_heap_cell = 0; u.p = &g_heap_cell; g_allocs++; return u; }
+static inline UP* std_unique_ptr_i32_std_default_delete_i32_op_assign__xstd_unique_ptr_i32_std_default_delete_i32(UP* a, UP* b) { if (a->p) g_frees++; a->p = b->p; b->p = 0; return a; }
+static inline int* std_unique_ptr_i32_std_default_delete_i32_op_star___k(const UP* u) { __CPROVER_assert(u->p != 0, "MODEL: unique_ptr::operator* on a non-null pointer (UB otherwise)"); return u->p; }
+static inline void std_unique_ptr_i32_std_default_delete_i32_reset__pi32(UP* u, int* np) { if (u->p) g_frees++; u->p = np; }
 #include "gen.h"
 /* abstract load scope: N items; IsEnd <=> all N were requested; each SerializeValue raises or delivers the next item */
 unsigned long AbsLoadArrayScope_GetEstimatedSize___k(const struct AbsLoadArrayScope* s) { return g_estimate; }
@@ -42,6 +58,20 @@ void h_load_vector(void) { struct AbsLoadArrayScope scope; vvec_i32 vec; g_vec =
   VERIF_ASSERT("C18", __verif_exc != 0 || (vec.size == g_n && g_loaded == g_n), "after a successful load the container has exactly as many elements as the archive array: no stale element survives, nothing loaded is lost, whatever the prior size and the size estimate");
   VERIF_ASSERT("C18", __verif_exc != 0 || g_w >= g_n || (g_w_done && g_w_slot == g_w), "item number w of the archive is loaded into element number w of the container (arbitrary witness w)");
   VERIF_CANARY(); }
+/* optional / unique_ptr: one value is requested; it loads (ret true, value written), is reported as not loaded (null / skipped), or the load raises */
+static int g_prior;
+void h_load_optional(void) { struct AbsLoadArrayScope scope; vopt_i32 o; o.has = nondet_bool(); o.v = nondet_int(); g_n = 1; g_loaded = 0; g_w = 0; g_w_done = 0; __verif_exc = 0; g_deref_idx = 0; vvec_i32 dummy; dummy.size = 1; g_vec = &dummy;
+  _Bool ret = verif_inst_load_optional__rAbsLoadArrayScope_rvopt_i32(&scope, &o);
+  VERIF_ASSERT("C18", __verif_exc != 0 || (g_loaded == 1 && ret == o.has), "whatever the optional held before, after a load it is engaged iff the value was loaded (a null or skipped value resets it): the same result as loading into a fresh optional");
+  VERIF_ASSERT("C18,C20", __verif_exc == 0 || __verif_exc == EXC_SerializationException, "only the archive's own exception leaves the loader (no bad_optional_access)");
+  VERIF_CANARY(); }
+void h_load_unique(void) { struct AbsLoadArrayScope scope; UP u; static int prior_cell; u.p = nondet_bool() ? &prior_cell : 0; _Bool had = u.p != 0; g_allocs = 0; g_frees = 0; g_n = 1; g_loaded = 0; g_w = 0; g_w_done = 0; __verif_exc = 0; vvec_i32 dummy; dummy.size = 1; g_vec = &dummy;
+  _Bool ret = verif_inst_load_unique__rAbsLoadArrayScope_rstd_unique_ptr_i32_std_default_delete_i32(&scope, &u);
+  VERIF_ASSERT("C18", __verif_exc != 0 || (g_loaded == 1 && ret == (u.p != 0)), "whatever the pointer held before, after a load it owns an object iff the value was loaded (a null or skipped value resets it)");
+  VERIF_ASSERT("C18,C20", __verif_exc != 0 || (g_allocs == (had ? 0u : 1u) && g_frees == (ret ? 0u : 1u)), "an object is allocated only when none was there and released exactly when the value was not loaded: nothing leaks, nothing is released twice");
+  VERIF_CANARY(); }
 /*@jobs
 job entry=h_load_vector props=C18,C02 mode=direct loops=1 unwind=2
+job entry=h_load_optional props=C18,C20,C02 mode=direct unwind=2
+job entry=h_load_unique props=C18,C20,C02 mode=direct unwind=2
 @*/
